@@ -430,6 +430,14 @@ func genCase(t *rapid.T) Case {
 			default:
 				p = strings.Repeat("/", rapid.IntRange(0, 3).Draw(t, "nl")) + strings.Join(gen.Instance(t, d, rapid.Bool().Draw(t, "sh")), "/")
 			}
+			if rapid.IntRange(0, 11).Draw(t, "keysplit") == 0 {
+				// method and path are two strings, not one: "<METHOD><path>" cut
+				// somewhere else (a method that is a piece of a real one, a path
+				// that does not start with a slash)
+				joined := m + p
+				k := rapid.IntRange(0, len(joined)).Draw(t, "ksk")
+				m, p = joined[:k], joined[k:]
+			}
 			if strings.Contains(p, "%") && rapid.IntRange(0, 2).Draw(t, "decoded") == 0 {
 				// the decoded spelling of a path with escapes is another path
 				p = model.Decode1(p)
